@@ -507,6 +507,9 @@ pub enum EncCall<'a> {
 
 fn enc_history_props(ctx: &mut Ctx, st: &EncState, call: &EncCall, got: &Outcome) -> Vec<&'static str> {
     let mut extra = Vec::new();
+    if layer_divergence_pending() {
+        extra.push("C09"); // the ReedSolomonEncoder wrapper answered differently from the codec it is documented to be
+    }
     if let (EncCall::Add(shard), Outcome::Err(Error::DifferentShardSize { .. } | Error::InvalidShardSize { .. })) = (call, got) {
         if shard.len() == st.cfg.2 {
             extra.push("C04"); // a shard of exactly the configured size is refused for its size
@@ -576,6 +579,9 @@ pub enum DecCall<'a> {
 
 fn dec_history_props(ctx: &mut Ctx, st: &DecState, call: &DecCall, got: &Outcome) -> Vec<&'static str> {
     let mut extra = Vec::new();
+    if layer_divergence_pending() {
+        extra.push("C09");
+    }
     if let (DecCall::Add(_, _, shard), Outcome::Err(Error::DifferentShardSize { .. } | Error::InvalidShardSize { .. })) = (call, got) {
         if shard.len() == st.cfg.2 {
             extra.push("C04");
@@ -757,6 +763,7 @@ fn marathon_marks(ch: &mut Chooser, idle: usize, n: usize) -> Vec<usize> {
 }
 
 pub fn run_encoder(ch: &mut Chooser, ctx: &mut Ctx) {
+    let _ = take_layer_divergence();
     let mut pool = Pool::default();
     let kind = gen_kind(ch);
     let marathon = gen_marathon(ch, kind);
@@ -1115,6 +1122,11 @@ pub fn run_encoder(ch: &mut Chooser, ctx: &mut Ctx) {
                 }
             }
         }
+        if let Some(d) = take_layer_divergence() {
+            if ctx.viol(&["C09"], "api-layers-agree", format!("layers/{}", d.split(':').next().unwrap_or("")), format!("{:?}: {d}", st.cfg), true) {
+                return;
+            }
+        }
         if lockstep_check(ctx, st.kind, "encoder history") {
             return;
         }
@@ -1245,6 +1257,13 @@ fn enc_encode(ch: &mut Chooser, ctx: &mut Ctx, obj: &mut dyn DynEncoder, st: &mu
             // a recovery shard handed out under the wrong index (or another shard under that index) is also not the shard
             // the code defines for that index (C02), whichever accessor or iterator adaptor delivered it
             let props: &[&'static str] = if why.contains(" bytes, expected") { &["C12", "C04"] } else if why.contains("disagree") || why.contains("differs") { &["C12", "C02"] } else { &["C12"] };
+            let mut props = props.to_vec();
+            // history dependence: a freshly built object given the same round passes the same probe
+            let (kk, rr, bb) = st.cfg;
+            if (st.has_history || st.rounds > 0) && matches!(ctx.shadow(|| fresh_encoder_probe_ok(st.kind, kk, rr, bb, &st.shards, probe_seed)), Ok(true)) {
+                props.push("C05");
+            }
+            let props = &props[..];
             return ctx.viol(props, "result-contract", format!("enc-result/{}", why.split_whitespace().next().unwrap_or("")), format!("{}{:?} EncoderResult: {why}", st.kind.name(), st.cfg), true);
         }
     };
@@ -1491,6 +1510,7 @@ pub fn weird_index(ch: &mut Chooser, count: usize) -> usize {
 }
 
 pub fn run_decoder(ch: &mut Chooser, ctx: &mut Ctx) {
+    let _ = take_layer_divergence();
     let mut pool = Pool::default();
     let kind = gen_kind(ch);
     let marathon = gen_marathon(ch, kind);
@@ -1921,6 +1941,11 @@ pub fn run_decoder(ch: &mut Chooser, ctx: &mut Ctx) {
                 }
             }
         }
+        if let Some(d) = take_layer_divergence() {
+            if ctx.viol(&["C09"], "api-layers-agree", format!("layers/{}", d.split(':').next().unwrap_or("")), format!("{:?}: {d}", st.cfg), true) {
+                return;
+            }
+        }
         if lockstep_check(ctx, st.kind, "decoder history") {
             return;
         }
@@ -2064,6 +2089,13 @@ fn dec_decode(ch: &mut Chooser, ctx: &mut Ctx, obj: &mut dyn DynDecoder, st: &mu
         Ok(m) => m,
         Err(why) => {
             let props: &[&'static str] = if why.contains(" bytes, expected") { &["C12", "C04"] } else { &["C12", "C11", "C01"] };
+            let mut props = props.to_vec();
+            // history dependence: a freshly built object given the same round passes the same probe
+            let (kk, rr, bb) = st.cfg;
+            if (st.has_history || st.rounds > 0) && matches!(ctx.shadow(|| fresh_decoder_probe_ok(st.kind, kk, rr, bb, &st.adds, probe_seed)), Ok(true)) {
+                props.push("C05");
+            }
+            let props = &props[..];
             return ctx.viol(props, "result-contract", format!("dec-result/{}", why.split_whitespace().next().unwrap_or("")), format!("{}{:?} DecoderResult: {why}", st.kind.name(), st.cfg), true);
         }
     };
